@@ -172,12 +172,27 @@ func (p *Prog) buildKeyTable() *KeyTable {
 // straight-line code: the single enumerated path gives the exact result term
 // (sequential appends into a temporary fold into one nested append).
 func (p *Prog) shapeOfBuilder(kt *KeyTable, f *Func) (Shape, bool) {
-	t := p.builderResult(f)
-	if t == nil {
-		return nil, false
+	understood := func(sh Shape) bool {
+		for _, s := range sh {
+			if s.Kind == "Unknown" {
+				return false
+			}
+		}
+		return len(sh) > 0
 	}
-	sh := p.shapeOfTerm(kt, f, t, 0)
-	return sh, true
+	var sh Shape
+	ok := false
+	if t := p.builderResult(f); t != nil {
+		sh, ok = p.shapeOfTerm(kt, f, t, 0), true
+	}
+	if ok && understood(sh) {
+		return sh, true
+	}
+	// not a single append chain (loops over a literal list, variadic joins, helper fragments): interpret the body
+	if ish, iok := p.interpBuilder(kt, f); iok && (understood(ish) || !ok) {
+		return ish, true
+	}
+	return sh, ok
 }
 
 func (p *Prog) builderResult(f *Func) *Term {
@@ -398,7 +413,7 @@ func (p *Prog) keyVariants(k *Term, depth int) []keyVar {
 		}
 	}
 	// a key computed by a function value that is a known literal: its result on the actual arguments
-	if k0.Op == "dyn" && len(k0.A) >= 1 && k0.A[0].Is("func") && len(k0.A[0].A) == 1 && depth <= 2 {
+	if k0.Op == "dyn" && len(k0.A) >= 1 && k0.A[0].Is("func") && len(k0.A[0].A) >= 1 && depth <= 2 {
 		cl := p.FuncNamed(k0.A[0].A[0].At)
 		if cl == nil || cl.Body == nil || p.pathsBusy[cl] {
 			return nil
@@ -406,6 +421,9 @@ func (p *Prog) keyVariants(k *Term, depth int) []keyVar {
 		m := map[string]*Term{}
 		for i, a := range k0.A[1:] {
 			m[fmt.Sprintf("P%d", i)] = a
+		}
+		if len(k0.A[0].A) == 2 {
+			m["Precv"] = k0.A[0].A[1]
 		}
 		// captured parameters of the enclosing function keep their meaning there
 		if cl.Parent != nil {
